@@ -1638,7 +1638,8 @@ def check_C01(tier, seed):
     # (1) exhaustive, complete state graph (no depth bound): two nodes, every ranking variant, with and without one fault
     plain = [('link-12', 'NoFaults'), ('link-21', 'NoFaults'), ('link-eq', 'NoFaults'), ('link-lowclass', 'NoFaults'), ('link-slaveonly', 'NoFaults'), ('link-slaveonly-eqprio', 'NoFaults'), ('link-p2', 'NoFaults')]
     if not q:
-        plain += [('link-12', 'AllFaults'), ('link-21', 'AllFaults'), ('parallel', 'NoFaults'), ('link-slaveonly', 'AllFaults'), ('link-lowclass', 'AllFaults')]
+        # (two parallel links: the complete graph is too large for breadth-first search - replayed to a depth bound and simulated below)
+        plain += [('link-12', 'AllFaults'), ('link-21', 'AllFaults'), ('link-eq', 'AllFaults'), ('link-p2', 'AllFaults'), ('link-slaveonly', 'AllFaults'), ('link-lowclass', 'AllFaults')]
     for name, faults in plain:
         cfg = os.path.join(outdir('cfg'), 'C01-%s-%s.cfg' % (name, faults))
         write_cfg(cfg, constants=net_consts(name, KS, faults), invariants=['Settle'], properties=['NoFlap'])
@@ -1692,17 +1693,17 @@ def check_C01(tier, seed):
     replay_net('C01-r-link-12', net_consts('link-12', KS, keep=True, depth=60 if q else 400))
     if not q:
         replay_net('C01-r-link-21', net_consts('link-21', KS, 'AllFaults', keep=True, depth=400))
-        replay_net('C01-r-parallel', net_consts('parallel', KS, keep=True, depth=40))
+        replay_net('C01-r-parallel', net_consts('parallel', KS, keep=True, depth=26))
     for name in (['chain3', 'shared3', 'chain3-p2'] if q else ['chain3', 'star3', 'ring3', 'shared3', 'chain4', 'ring4', 'chain3-p2']):
-        replay_net('C01-r-' + name, net_consts(name, KSIM[NETS[name]['n']], 'AllFaults', keep=True, depth=900, force=True), simulate=(4 if q else 60, 800))
+        replay_net('C01-r-' + name, net_consts(name, KSIM[NETS[name]['n']], 'AllFaults', keep=True, depth=900, force=True), simulate=(4 if q else 30, 800))
     # two ports of the WORSE instance on one segment: one slave, one passive by topology. (Silencing the better node would turn this into the
     # recorded multiport finding - the instance then wants to be master on both ports - so the fault here is a quality change.)
-    replay_net('C01-r-multi-rev', net_consts('multi-rev', KSIM[2], 'QualityFaults', keep=True, depth=600, force=True), simulate=(4 if q else 60, 500))
+    replay_net('C01-r-multi-rev', net_consts('multi-rev', KSIM[2], 'QualityFaults', keep=True, depth=600, force=True), simulate=(4 if q else 30, 500))
     # a link that comes up after the network has converged without it (a slave port has to turn passive)
     for name in (['ring3-restore'] if q else ['ring3-restore', 'parallel-restore']):
-        replay_net('C01-r-' + name, net_consts(name, KSIM[NETS[name]['n']], 'RestoreFaults', keep=True, depth=900, force=True), simulate=(4 if q else 60, 800))
+        replay_net('C01-r-' + name, net_consts(name, KSIM[NETS[name]['n']], 'RestoreFaults', keep=True, depth=900, force=True), simulate=(4 if q else 30, 800))
     # two ports of one instance on one segment: the model (which flaps, recorded finding) is still what the code does, edge by edge
-    replay_net('C01-r-multi', net_consts('multi', 40, keep=True, depth=400), simulate=(3 if q else 40, 300), invariants=())
+    replay_net('C01-r-multi', net_consts('multi', 40, keep=True, depth=400), simulate=(3 if q else 20, 300), invariants=())
     # (3) Binding B: free-running simulations of real instances (real timer durations, delays, drift, one fault), validated by TraceNet
     td = outdir('traces', 'C01'); vlib.clean_dir(td)
     free = [('chain3', {'kind': 'silence', 'n': 3}), ('ring3', {'kind': 'cut', 'seg': 0}), ('shared3', {'kind': 'quality', 'n': 1}), ('chain4', {'kind': 'silence', 'n': 2}),
